@@ -93,9 +93,10 @@ GENERATORS = GENERATORS + [regen_get_comparam]
 LEAN_TARGETS = LEAN_TARGETS + ["OdxVerif.Props.C15GenAccessors"]
 THEOREMS = THEOREMS + ["OdxVerif.Comparam." + t for t in ["gen_canFuncReqId_eq", "gen_doipLogicalGatewayAddress_eq", "gen_doipLogicalTesterAddress_eq",
                                                           "gen_doipLogicalFunctionalAddress_eq", "gen_doipRoutingActivationType_eq",
-                                                          "C15_gen_accessors_int", "C15_gen_accessors_spec"]]
+                                                          "C15_gen_accessors_int", "C15_gen_accessors_spec",
+                                                          "gen_canBaudrate_eq", "C15_gen_can_baudrate"]]
 TRUSTED = TRUSTED + ["translator + PyRt primitives for get_can_func_req_id, get_doip_logical_gateway_address, get_doip_logical_tester_address, "
-                     "get_doip_logical_functional_address, get_doip_routing_activation_type (self.get_comparam = the generated getComparamE; "
+                     "get_doip_logical_functional_address, get_doip_routing_activation_type, get_can_baudrate (isinstance(com_param.value, str) = CVal.isStr; self.get_comparam = the generated getComparamE; "
                      "com_param.get_value() = the hand-written getValue, int(str) = the hand-written pyInt with ValueError as class foreign: both "
                      "stay tied to the code by the correspondence check only; odxassert(isinstance(result, str)) is a typing assertion)"]
 
